@@ -55,6 +55,7 @@ type Step struct {
 	Header bool      `json:"hdr,omitempty"`
 	Used   bool      `json:"used,omitempty"`  // load into a used index
 	Chunk  []int     `json:"chunk,omitempty"` // reader fragment sizes (cyclic); empty = whole buffer
+	Aim    int       `json:"aim,omitempty"`   // remove: 1 = whichever item is the entry point at that moment, 2 = the entry point's nearest live neighbour on its highest linked layer (Id if there is none)
 }
 
 type History struct {
@@ -72,7 +73,7 @@ func (h History) String() string {
 		case OpUpdate:
 			fmt.Fprintf(&b, " update(#%d,%v,meta%d)", s.Id, s.Vec, s.Meta)
 		case OpRemove:
-			fmt.Fprintf(&b, " remove(#%d)", s.Id)
+			fmt.Fprintf(&b, " remove(#%d,aim=%d)", s.Id, s.Aim)
 		case OpSaveLoad:
 			fmt.Fprintf(&b, " saveload(hdr=%v,used=%v,chunk=%v)", s.Header, s.Used, s.Chunk)
 		case OpSearch:
@@ -94,6 +95,7 @@ type GenOpts struct {
 	Default  bool   // only default configs (partition path)
 	NoChunk  bool
 	Boundary bool // metadata at the snapshot format's length limits now and then
+	Tall     bool // a quarter of the histories use tiny fan-out (M 1-2) and mostly multi-layer items: many layers with pruned, one-directional links
 }
 
 func GenCfg(maxDim int, onlyDefault bool) *rapid.Generator[Cfg] {
@@ -122,6 +124,15 @@ func Gen(o GenOpts) *rapid.Generator[History] {
 	return rapid.Custom(func(t *rapid.T) History {
 		cfg := GenCfg(o.MaxDim, o.Default).Draw(t, "cfg")
 		nIds := rapid.IntRange(2, o.MaxIds).Draw(t, "nids")
+		level := gen.Level()
+		if o.Tall && !o.Default && rapid.IntRange(0, 3).Draw(t, "tall") == 0 {
+			cfg.Default = false
+			cfg.M = rapid.SampledFrom([]int{1, 1, 2}).Draw(t, "tallm")
+			if cfg.Ef == 0 {
+				cfg.Ef, cfg.EfC = 8, 8
+			}
+			level = rapid.SampledFrom([]int{0, 1, 1, 1, 2, 2, 2, 3})
+		}
 		var kinds []int
 		for k, w := range o.Weights {
 			for i := 0; i < w; i++ {
@@ -139,13 +150,17 @@ func Gen(o GenOpts) *rapid.Generator[History] {
 				if o.Boundary && rapid.IntRange(0, 19).Draw(t, "boundary") == 0 {
 					s.Meta = len(gen.MetaShapes) + rapid.IntRange(0, len(gen.BoundaryMetaShapes)-1).Draw(t, "bmeta")
 				}
-				s.Level = gen.Level().Draw(t, "level")
+				s.Level = level.Draw(t, "level")
 			case OpUpdate:
 				s.Id = rapid.IntRange(0, nIds-1).Draw(t, "id")
 				s.Vec = vec.Draw(t, "vec")
 				s.Meta = rapid.IntRange(0, len(gen.MetaShapes)-1).Draw(t, "meta")
 			case OpRemove, OpGet:
 				s.Id = rapid.IntRange(0, nIds-1).Draw(t, "id")
+				if s.Op == OpRemove {
+					// entry-point hand-over is the delicate part of Remove: aim at the entry point now and then
+					s.Aim = rapid.SampledFrom([]int{0, 0, 0, 0, 1, 1, 2, 2}).Draw(t, "aim")
+				}
 			case OpSearch:
 				s.Vec = vec.Draw(t, "q")
 				s.K = rapid.SampledFrom([]int{0, 1, 1, 2, 3, 5, 10, 2*nIds + 2}).Draw(t, "k")
@@ -526,6 +541,17 @@ func (e *Exec) SaveLoad(s Step, where string) *pbt.Failure {
 	if len(e.Model) == 0 {
 		e.Obs.Label("saveload-empty")
 	}
+	if before.HasEntry {
+		top := 0
+		for _, v := range before.Vertices {
+			if v.Level > top {
+				top = v.Level
+			}
+		}
+		if before.EntryLevel < top {
+			e.Obs.Label("saveload-entry-point-below-top-layer")
+		}
+	}
 	for _, it := range e.Model {
 		for k, v := range it.Meta {
 			if len(k) >= 255 || len(v) >= 65535 {
@@ -563,6 +589,33 @@ func Run(h History, or Oracles, o *pbt.Obs) *pbt.Failure {
 	for i, s := range h.Steps {
 		where := fmt.Sprintf("step %d %s", i, opNames[s.Op])
 		id := gen.ID(s.Id)
+		if s.Op == OpRemove && s.Aim > 0 {
+			if d := e.Idx.VerifDump(); d.HasEntry && d.EntryStored {
+				if s.Aim == 1 {
+					id = d.Entry
+					o.Label("remove-aimed-at-entry-point")
+				} else {
+					for _, v := range d.Vertices {
+						if v.Id != d.Entry {
+							continue
+						}
+						for l := len(v.Edges) - 1; l >= 0; l-- {
+							best := -1
+							for j, ed := range v.Edges[l] {
+								if !ed.ToDeleted && ed.ToStored && (best < 0 || ed.Distance < v.Edges[l][best].Distance) {
+									best = j
+								}
+							}
+							if best >= 0 {
+								id = v.Edges[l][best].To
+								o.Label("remove-aimed-at-entry-point's-top-neighbour")
+								break
+							}
+						}
+					}
+				}
+			}
+		}
 		switch s.Op {
 		case OpInsert:
 			_, exists := e.Model[id]
